@@ -8,12 +8,13 @@ import z3
 from . import ctx as C
 from .symex import Unsupported
 
-MODULES = ["c05", "c03", "c12", "c19", "c08", "serde"]
+MODULES = ["c05", "c03", "c12", "builders", "c19", "c08", "serde"]
 
 
 class Claim:
-    def __init__(self, name, prop, tier, fn, text, bound, configs=("fast",), crate="lexpr"):
+    def __init__(self, name, prop, tier, fn, text, bound, configs=("fast",), crate="lexpr", also=()):
         self.name, self.prop, self.tier, self.fn = name, prop, tier, fn
+        self.also = tuple(also)   # further properties this claim is evidence for
         self.text, self.bound, self.configs, self.crate = text, bound, configs, crate
 
 
@@ -97,7 +98,7 @@ def all_claims():
 
 def run(prop, tier, seed, kf_keys, only=None):
     res = []
-    claims = [c for c in all_claims() if c.prop == prop and (tier == "thorough" or c.tier == "quick")]
+    claims = [c for c in all_claims() if (c.prop == prop or prop in getattr(c, 'also', ())) and (tier == "thorough" or c.tier == "quick")]
     if only:
         claims = [c for c in claims if only in c.name] or []
     for c in claims:
@@ -133,6 +134,7 @@ def summarize(r, wall):
             d["status"] = "violation"
             d["replayed"] = True
             d["replay_path"] = save_replay(c.prop, name, rep[0])
+            d["props"] = (c.prop,) + c.also
         else:
             d["status"] = "violation"
             d["replayed"] = False
